@@ -59,9 +59,9 @@
         open spec fn spec_ser(len: usize) -> Seq<u8> { Seq::<u8>::empty() }
         open spec fn spec_deser(b: Seq<u8>) -> Option<(usize, int)> { Some((b.len() as usize, 0)) }
         open spec fn spec_pad(len: usize) -> Seq<u8> { Seq::<u8>::empty() }
-        //@ fn src:zvt_builder/src/length.rs | impl Length for Empty | serialize | props=C16,C03
+        //@ fn src:zvt_builder/src/length.rs | impl Length for Empty | serialize | props=C16,C03 $M
         //@ end
-        //@ fn src:zvt_builder/src/length.rs | impl Length for Empty | deserialize | props=C02,C16
+        //@ fn src:zvt_builder/src/length.rs | impl Length for Empty | deserialize | props=C02,C16 $M
         //@ end
         //@ tag len.law_inverse.Empty C16 C01
         proof fn law_inverse(len: usize, p: Seq<u8>, s: Seq<u8>) {
@@ -83,9 +83,9 @@
         open spec fn spec_ser(len: usize) -> Seq<u8> { Seq::new((N - len) as nat, |i: int| 0u8) }
         open spec fn spec_deser(b: Seq<u8>) -> Option<(usize, int)> { if b.len() >= N { Some((N, 0)) } else { None } }
         open spec fn spec_pad(len: usize) -> Seq<u8> { Seq::new((N - len) as nat, |i: int| 0u8) }
-        //@ fn src:zvt_builder/src/length.rs | impl Length for Fixed<N> | serialize | props=C16,C03
+        //@ fn src:zvt_builder/src/length.rs | impl Length for Fixed<N> | serialize | props=C16,C03 $M
         //@ end
-        //@ fn src:zvt_builder/src/length.rs | impl Length for Fixed<N> | deserialize | props=C02,C16
+        //@ fn src:zvt_builder/src/length.rs | impl Length for Fixed<N> | deserialize | props=C02,C16 $M
         //@ end
         //@ tag len.law_inverse.Fixed C16 C01
         proof fn law_inverse(len: usize, p: Seq<u8>, s: Seq<u8>) {
@@ -118,9 +118,9 @@
             else { None }
         }
         open spec fn spec_pad(len: usize) -> Seq<u8> { Seq::<u8>::empty() }
-        //@ fn src:zvt_builder/src/length.rs | impl Length for Tlv | serialize | props=C16,C03
+        //@ fn src:zvt_builder/src/length.rs | impl Length for Tlv | serialize | props=C16,C03 $M
         //@ end
-        //@ fn src:zvt_builder/src/length.rs | impl Length for Tlv | deserialize | props=C02,C16
+        //@ fn src:zvt_builder/src/length.rs | impl Length for Tlv | deserialize | props=C02,C16 $M
         //@ end
         //@ tag len.law_inverse.Tlv C16 C01
         proof fn law_inverse(len: usize, p: Seq<u8>, s: Seq<u8>) {
@@ -180,7 +180,7 @@
             if b.len() >= N { Some((llv_val(b, N as nat) as usize, N as int)) } else { None }
         }
         open spec fn spec_pad(len: usize) -> Seq<u8> { Seq::<u8>::empty() }
-        //@ fn src:zvt_builder/src/length.rs | impl Length for LlvImpl<N> | serialize | all-loops props=C16,C03
+        //@ fn src:zvt_builder/src/length.rs | impl Length for LlvImpl<N> | serialize | all-loops props=C16,C03 $M
         //@ loop 0
                 invariant
                     rv@.len() == N, __lo == 0, __hi <= N,
@@ -188,7 +188,7 @@
                     forall|m: int| __hi <= m < N ==> rv@[m] == 0xf0u8 | ((div10n(input as nat, (N - 1 - m) as nat) % 10) as u8),
                 decreases __hi,
         //@ end
-        //@ fn src:zvt_builder/src/length.rs | impl Length for LlvImpl<N> | deserialize | all-loops n3=d props=C02,C16
+        //@ fn src:zvt_builder/src/length.rs | impl Length for LlvImpl<N> | deserialize | all-loops n3=d props=C02,C16 $M
         //@ loop 0
                 invariant
                     N <= 19, iter.index@ <= data@.len(),
@@ -279,9 +279,9 @@
             else { Some((b[0] as usize, 1)) }
         }
         open spec fn spec_pad(len: usize) -> Seq<u8> { Seq::<u8>::empty() }
-        //@ fn src:zvt_builder/src/length.rs | impl Length for Adpu | serialize | props=C16,C03,C04
+        //@ fn src:zvt_builder/src/length.rs | impl Length for Adpu | serialize | props=C16,C03,C04 $M
         //@ end
-        //@ fn src:zvt_builder/src/length.rs | impl Length for Adpu | deserialize | props=C02,C16
+        //@ fn src:zvt_builder/src/length.rs | impl Length for Adpu | deserialize | props=C02,C16 $M
         //@ end
         //@ tag len.law_inverse.Adpu C16 C01 C04
         proof fn law_inverse(len: usize, p: Seq<u8>, s: Seq<u8>) {
